@@ -290,7 +290,33 @@ def c11(tier):
     return cases
 
 
-GENERATORS = {"C01": c01, "C02": c02, "C03": c03, "C04": c04, "C11": c11, "C12": c12}
+def c09(tier):
+    """every writing command against a watched key; several watchers of one key in every flag state"""
+    cases = []
+    pre = [op(1, "SET", "o", "other"), op(1, "RPUSH", "l2", "q"), op(1, "SADD", "s2", "q", "a"), op(1, "ZADD", "z2", "3", "q")]
+    for i, (ty, w) in enumerate(WRITERS):
+        steps = list(pre) + [op(1, *c) for c in SETUP[ty]]
+        steps += [op(0, "WATCH", "k"), op(1, *w), op(0, "MULTI"), op(0, "SET", "done", "1"), op(0, "EXEC"), op(0, "GET", "done")]
+        cases.append(("c09-writer-%d-%s" % (i, w[0]), "mem", steps))
+    # watchers 2, 3, 4 of the same key registered in that order; writes by conn 1 in between
+    import itertools as it
+    for n, order in enumerate(it.permutations([2, 3, 4])):
+        steps = [op(1, "SET", "k", "0")]
+        steps += [op(order[0], "WATCH", "k"), op(1, "SET", "k", "1"), op(order[1], "WATCH", "k"), op(1, "APPEND", "k", "x"),
+                  op(order[2], "WATCH", "k"), op(1, "INCR", "n"), op(1, "SET", "k", "2")]
+        for c in order:
+            steps += [op(c, "MULTI"), op(c, "SET", "done%d" % c, "1"), op(c, "EXEC")]
+        steps += [op(1, "KEYS", "*")]
+        cases.append(("c09-watchers-%d" % n, "mem", steps))
+    # a watcher that already ran its transaction (flags cleared) next to fresh ones
+    steps = [op(1, "SET", "k", "0"), op(2, "WATCH", "k"), op(3, "WATCH", "k"), op(1, "SET", "k", "1"), op(2, "MULTI"), op(2, "GET", "k"), op(2, "EXEC"),
+             op(2, "WATCH", "k"), op(4, "WATCH", "k"), op(1, "SET", "k", "2"),
+             op(3, "MULTI"), op(3, "GET", "k"), op(3, "EXEC"), op(2, "MULTI"), op(2, "GET", "k"), op(2, "EXEC"), op(4, "MULTI"), op(4, "GET", "k"), op(4, "EXEC")]
+    cases.append(("c09-rewatch", "mem", steps))
+    return cases
+
+
+GENERATORS = {"C09": c09, "C08": c09, "C01": c01, "C02": c02, "C03": c03, "C04": c04, "C11": c11, "C12": c12}
 
 
 def write_for(pid, tier, path):
